@@ -133,3 +133,7 @@ def main(ctx, t0):
     acc = core.run_units(units(ctx), run_unit, ctx)
     extra = {"exhaustive": True, "comparisons_per_game": len(comparisons(spaces.config("K0")))}
     return core.finish(PID, ctx, LEVEL, acc, RULE, extra, ASSUMPTIONS, t0)
+
+
+def replay_unit(unit, ctx):
+    return run_unit(unit, ctx)
